@@ -23,7 +23,7 @@ fn cfg(tier: Tier) -> ProgCfg {
             list: 1,
             ..OpMix::NONE
         },
-        wmix: WriteMix { bad_decls: false, meta: false, by_hash: true, rich_matching: false, interfere: false },
+        wmix: WriteMix { bad_decls: false, meta: true, by_hash: true, rich_matching: false, interfere: false },
         sizes: SizeMix::Small,
         keys: (2, 10),
         blobs: (1, 6),
